@@ -29,7 +29,7 @@ CHECKS = {
  'C19': dict(engine='faultsim', category='fault_enumeration', design_ref='DESIGN.md section 3 / C19',
    technique='deterministic simulation with fault injection: enumerated and seeded stored-byte faults (truncation, substitution, structure-aware field corruption, random bytes) on a simulated disk with an I/O clock and read-request accounting',
    text="Every truncation length up to 4 KiB and around every structural boundary, every listed single-byte substitution of the 64-byte header region (enumerated per seed image; quick sweeps a seeded third of the images, thorough all), plus seeded multi-field structure-aware corruptions and random byte strings. Oracles: constructor outcome is success or ELFError; the fixed enumeration battery terminates within deterministic budgets on the simulated I/O clock (stream operations, bytes returned, largest read request) and allocates at most 64*W + 4 MiB at once (every run screened by the growth of its process, decided by the tracemalloc peak of a second execution when the screen trips; MemoryError under a 1 GiB address-space limit is a violation). Enumeration of the named fault classes on the seed images; sampling for field/bytes.",
-   note="Trusted: SimStream's BytesIO-compatible semantics and accounting; budget constants K_ops=K_bytes=1024*W, K_read=16*W with W=max(file size, 4096) - generous on purpose, they separate loops bounded by the file size or a 16-bit count from loops driven by an unchecked 32/64-bit field. Loops that do no I/O are only caught by the wall-clock watchdog. Allocations below the bound are not judged; the screening stage reads /proc/self/status."),
+   note="Trusted: SimStream's BytesIO-compatible semantics and accounting; budget constants K_ops=128*W, K_bytes=256*W, K_read=8*W with W=max(file size, 4096) - a factor 32 / 16 / 8 above what any run on the unchanged tree needs (histogram probes in the evidence); they separate loops bounded by the file size or a 16-bit count from loops driven by an unchecked 32/64-bit field. Loops that do no I/O are only caught by the wall-clock watchdog. Allocations below the bound are not judged; the screening stage reads /proc/self/status."),
  'C10': dict(engine='histsim', category='exploration', design_ref='DESIGN.md section 3 / C10',
    technique='deterministic simulation: seeded cooperative scheduler interleaving client tasks step by step (one API call / one next() per step) on one shared opened file, with cursor displacement and iterator abandonment injected between steps; oracle = solo execution on a fresh object + sequential catalogue',
    text="Seeded search over call histories: 1-4 client tasks x 1-8 ops drawn from ~80 public read-only op kinds (ELF and DWARF level), every library iterator interruptible at every element, cursor of every shared stream (file and each debug section) displaced between steps, iterators abandoned half-way, repeated queries, a second DWARFInfo mid-history (also with other get_dwarf_info arguments than the calls before it). Each step must equal the same step of the op run alone on a fresh object; solo answers must agree with the sequential catalogue (linear DIE scan + derived nesting, linear table scans). Sampling of histories: evidence, not proof.",
